@@ -1,7 +1,7 @@
 """C03 - Premade and composed models stay monotone and bounded after any training history."""
 import json
 import numpy as np
-from common import Case, cq, cql, cqm, clist, cnatl, cnatpairs, cbool, copt
+from common import Case, cq, cql, cqm, clist, cnat, cnatl, cnatpairs, cbool, copt
 import tfimpl
 
 ID = "C03"
@@ -20,21 +20,40 @@ RULE = ("real tfl.premade models (CalibratedLattice, CalibratedLinear, Calibrate
         "property predicates are evaluated on the real model on a grid (24 base points incl. missing values x every "
         "constrained feature swept over in-range, keypoint, and far out-of-range values / all buckets): pairwise "
         "monotonicity, categorical pairs, bounds for all points; plus every layer's assert_constraints(). For "
-        "single-lattice (all_vertices) and linear models every weight is extracted after construction, after the "
-        "first op and after the last op; Coq evaluates cal_lattice_eval / cal_linear_eval on 16 grid points against "
-        "model(x) (float32, 1e-5) and decides the wiring hypotheses of the composition theorems on the extracted "
-        "structure (check_wiring). Non-trivial = the model is still non-constant on the grid after its last training "
+        "single-lattice (all_vertices AND kronecker_factored) and linear models every weight is extracted after "
+        "construction, after the first op and after the last op (KFL: the layer's hyperparameters as the layer holds "
+        "them, kernel / scale / bias); Coq evaluates cal_lattice_eval / cal_kfl_eval / cal_linear_eval on 16 grid "
+        "points against model(x) (float32, 1e-5) and decides the hypotheses of the composition theorems on the "
+        "extracted structure (check_wiring; for KFL: kfl_feasible per (unit, term) relative to the sign of the scale, "
+        "fixed bias, monotonicity flags = feature flags, calibrators inside [0, L-1]). Two fixed kronecker_factored "
+        "models run hostile histories with new-style AND legacy (per-variable) SGD in every run. Non-trivial = the model is still non-constant on the grid after its last training "
         "op (coverage of the hostile histories); distinct = distinct descs.")
-TRUSTED = ["models: Model/Premade.v (hand-written from premade.py / premade_lib.py build_* functions) on top of "
-           "Model/PWLEval.v, Model/CategoricalEval.v, Model/LatticeInterp.v, Model/LinearEval.v; constraint theorems "
-           "C01/C04/C06 and evaluation theorems C02/C05/C20 are reused, not re-proved",
-           "Keras behaviour, observed not modelled: optimizers re-apply variable.constraint after every update; "
-           "constructors do not apply it; set_weights copies values verbatim",
+TRUSTED = ["models: Model/Premade.v, Model/PremadeKFL.v (hand-written from premade.py / premade_lib.py build_* functions) "
+           "on top of Model/PWLEval.v, Model/CategoricalEval.v, Model/LatticeInterp.v, Model/LinearEval.v, Model/KFL.v, "
+           "Model/RTLStructure.v; constraint theorems C01/C04/C06/C07, evaluation theorems C02/C05/C20 and the RTL "
+           "wiring theorems C17 are reused, not re-proved",
+           "Keras behaviour, hand-modelled from tf_keras (optimizer.py:731-736, legacy/optimizer_v2.py:767-796) and "
+           "observed by the histories: new-style optimizers assign every variable and then apply every "
+           "variable.constraint; legacy optimizers assign-then-constrain per variable in the order of grads_and_vars "
+           "(layer order scale, bias, kernel under model.fit); constructors do not apply constraints; set_weights "
+           "copies values verbatim; a non-trainable KFL bias is never touched",
            "initial values satisfy their invariants (C10) is a hypothesis of C03_reachable_feasible_*; it is observed "
-           "here on every freshly built model (assert_constraints + predicates)",
-           "KroneckerFactoredLattice-parameterised models, RTL internals and the Crystals prefitting are covered by the "
-           "implementation-side histories only (no Coq model of them in C03)"]
-LIMITS = ["the strict Lattice constraint model of C01 covers monotonicity, trusts and bounds; unimodality, dominance "
+           "here on every freshly built model (assert_constraints + predicates; check_wiring for KFL)",
+           "kfl_ok (Harness/H_C03.v) decides kfl_feasible up to the float32 tolerance; it is a hand-written decision "
+           "procedure without a soundness lemma",
+           "ensembles (explicit / random / RTL / Crystals structure, lattice or KFL members) have composed Coq models "
+           "and theorems (ensemble_eval, ensemble2_eval, C03_rtl_ensemble_monotone*) but their weights are not "
+           "extracted: for them the tie is the implementation-side histories only; the Crystals prefitting itself "
+           "(which lattices are chosen) is C17's subject"]
+LIMITS = ["KFL members: C03_reachable_feasible_kfl covers updates that apply BOTH KFL constraints after kernel and scale "
+          "received their raw values (every new-style optimizer, legacy optimizers with the layer's variable order). A "
+          "legacy optimizer handed the kernel before the scale, or any optimizer handed only the scale variable, is NOT "
+          "covered and really breaks monotonicity (C03_kfl_scale_moved_after_kernel_constraint_refuted; reproduced on "
+          "the implementation, not in the generator stream because model.fit cannot produce it)",
+          "the RTL theorems are stated over the RTL layer's flattened inputs (premade_lib supplies the monotone "
+          "features first, in feature order) and assume each lattice constrained along the dimensions its "
+          "monotonicity tuple flags (C01 / C07 give that per layer)",
+          "the strict Lattice constraint model of C01 covers monotonicity, trusts and bounds; unimodality, dominance "
           "and joint constraints of premade lattices are exercised by the histories only",
           "inherits the guards of C01 (D1) and C04 (D2): those configurations are not in the default generator stream",
           "categorical inputs range over bucket indices and the default value (an out-of-vocabulary index yields 0)",
@@ -192,6 +211,26 @@ def gen_descs(ctx):
                 dict(name="c", type="cat", nb=3, pairs=[[0, 1], [1, 2]], default=None, ls=2)],
       ops=[dict(op="fit", opt="sgd", lr=0.5, target="anti"), dict(op="fit", opt="sgd", lr=0.5, target="anti"),
            dict(op="fit", opt="sgd", lr=0.5, target="anti"), dict(op="fit", opt="sgd", lr=0.5, target="anti")], seed=0))
+  # fixed kronecker_factored single-lattice models (the composed Coq model cal_kfl_eval is compared on them in every
+  # run): hostile histories that flip the sign of the scale, new-style AND legacy (per-variable) optimizers
+  kfl_feats = [dict(name="a", type="num", mono="increasing", dir=1, kps=[0.0, 0.5, 1.0], default=None, ls=2),
+               dict(name="b", type="num", mono="decreasing", dir=-1, kps=[-1.0, 0.0, 2.0], default=-8.0, ls=2),
+               dict(name="c", type="cat", nb=3, pairs=[[0, 1], [1, 2]], default=-1, ls=2),
+               dict(name="d", type="num", mono=0, dir=0, kps=[0.0, 1.0, 2.0], default=None, ls=2, convexity=0,
+                    always_monotonic=False)]
+  out.append(dict(
+      model=dict(kind="lattice", param="kronecker_factored", num_terms=2, interpolation="hypercube",
+                 output_calibration=False, random_seed=3, output_min=-1.0, output_max=2.0, output_init=[-1.0, 2.0]),
+      features=kfl_feats,
+      ops=[dict(op="fit", opt="sgd", lr=5.0, target="anti_big"), dict(op="fit", opt="sgd_legacy", lr=5.0, target="anti"),
+           dict(op="restore", k=1), dict(op="fit", opt="adam", lr=5.0, target="const_lo"),
+           dict(op="fit", opt="sgd_legacy", lr=0.5, target="pro")], seed=11))
+  out.append(dict(
+      model=dict(kind="lattice", param="kronecker_factored", num_terms=1, interpolation="hypercube",
+                 output_calibration=True, random_seed=4, output_min=0.0, output_max=1.0, output_init=[0.0, 0.5, 1.0]),
+      features=[dict(f, ls=3) for f in kfl_feats[:3]],
+      ops=[dict(op="fit", opt="sgd_legacy", lr=50.0, target="anti_big"), dict(op="fit", opt="sgd", lr=0.5, target="pro")],
+      seed=12))
   if ctx.tier == "thorough":
     m, same = _model_desc(rng, "ensemble")
     m.update(structure="crystals", param="all_vertices", num_lattices=3, lattice_rank=2)
@@ -491,27 +530,45 @@ def _extract(desc, model):
   if "tfl_output_calib" in layers:
     oc = "(Some (%s, %s, %s))" % tuple(cql(t) for t in _pwl_tables(layers["tfl_output_calib"]))
   m = desc["model"]
+  kfl = "None"
   if m["kind"] == "linear":
     l = layers["tfl_linear_0"]
     k = [float(v) for v in l.kernel.numpy()[:, 0]]
     b = _f(l.bias.numpy()) if l.use_bias else 0.0
     lat = "Hypercube (@nil nat) (@nil (list Q)) %s %s" % (cql(k), cq(b))
     lin = True
+  elif m["param"] == "kronecker_factored":
+    # the KroneckerFactoredLattice layer: hyperparameters as the LAYER holds them and its three variables
+    l = layers["tfl_kronecker_factored_lattice_0"]
+    kern = l.kernel.numpy()  # (1, L, units * dims, terms)
+    assert l.units == 1 and not l.clip_inputs and kern.shape[0] == 1
+    monos = l.monotonicities
+    if monos is not None:
+      monos = [{"increasing": 1, "none": 0}.get(str(v).lower(), v) for v in monos]
+      monos = "(Some %s)" % clist([cbool(bool(int(v))) for v in monos])
+    else:
+      monos = "None"
+    kfl = "(Some (mkKflW %s %s %s %s %s %s %s %s %s))" % (
+        cnat(l.lattice_sizes), monos, copt(l.output_min), copt(l.output_max), cnat(kern.shape[2]), cnat(kern.shape[3]),
+        clist([cqm([[float(v) for v in row] for row in mat]) for mat in kern[0]]),
+        cqm([[float(v) for v in row] for row in l.scale.numpy()]), cql([float(v) for v in l.bias.numpy()]))
+    lat = "Hypercube (@nil nat) (@nil (list Q)) (@nil Q) 0"
+    lin = False
   else:
     l = layers["tfl_lattice_0"]
     sc = "Hypercube" if l.interpolation == "hypercube" else "Simplex"
     lat = "%s %s %s (@nil Q) 0" % (sc, cnatl(list(l.lattice_sizes)), cqm([[float(v)] for v in l.kernel.numpy()[:, 0]]))
     lin = False
-  return lin, lat, clist(cals), oc, clist(feats)
+  return lin, lat, clist(cals), oc, clist(feats), kfl
 
 
 def _coq_case(desc, model, rows, out, pick):
-  lin, lat, cals, oc, feats = _extract(desc, model)
+  lin, lat, cals, oc, feats, kfl = _extract(desc, model)
   m = desc["model"]
   pts = [[float(v) for v in rows[i]] for i in pick]
   outs = [float(out[i]) for i in pick]
-  return "mk %s %s %s %s %s %s %s %s %s" % (cbool(lin), lat, cals, oc, feats, copt(m["output_min"]), copt(m["output_max"]),
-                                            cqm(pts), cql(outs))
+  return "mk %s %s %s %s %s %s %s %s %s %s" % (cbool(lin), lat, cals, oc, feats, copt(m["output_min"]),
+                                               copt(m["output_max"]), cqm(pts), cql(outs), kfl)
 
 
 # --------------------------------------------------------------------------
@@ -524,7 +581,8 @@ def _run_history(desc):
   rs = np.random.RandomState(desc["seed"])
   data = _data(desc, rs)
   m = desc["model"]
-  modelled = m["kind"] in ("lattice", "linear") and m["param"] == "all_vertices"
+  # single-lattice (all_vertices AND kronecker_factored) and linear models have a composed Coq model
+  modelled = m["kind"] in ("lattice", "linear")
   pick = list(range(0, 24, 3)) + [24 + 5 * j for j in range(8) if 24 + 5 * j < len(rows)]
   states = [model.get_weights()]
   coq_terms, all_fails = [], []
@@ -556,7 +614,12 @@ def _run_history(desc):
     tag = "after op %d %s" % (j, json.dumps(op, sort_keys=True))
     try:
       if op["op"] == "fit":
-        opt = keras.optimizers.Adam(op["lr"]) if op["opt"] == "adam" else keras.optimizers.SGD(op["lr"])
+        if op["opt"] == "adam":
+          opt = keras.optimizers.Adam(op["lr"])
+        elif op["opt"] == "sgd_legacy":  # per-variable assign-then-constrain, variables in layer order
+          opt = keras.optimizers.legacy.SGD(op["lr"])
+        else:
+          opt = keras.optimizers.SGD(op["lr"])
         model.compile(loss="mse", optimizer=opt, run_eagerly=True)
         model.fit(data, _target(desc, data, op["target"]), batch_size=16, epochs=1, verbose=0)
       elif op["op"] == "restore":
